@@ -39,6 +39,7 @@ type Oblig struct {
 // Ctx is the per-run checking context.
 type Ctx struct {
 	P           *Prog
+	RuleMap     func(string) string // set while another property's check runs inside this one (Compose)
 	Property    string
 	Tier        string
 	Verifdir    string
@@ -66,11 +67,13 @@ func key(rule, construct string) string { return rule + ":" + construct }
 
 // OK records a discharged obligation.
 func (c *Ctx) OK(rule, construct string, pos token.Pos, how string) {
+	rule = c.mapRule(rule)
 	c.add(Oblig{Rule: rule, Key: key(rule, construct), Pos: c.P.Pos(pos), How: how, OK: true})
 }
 
 // Trivial records an obligation discharged by a syntactic safe form.
 func (c *Ctx) Trivial(rule, construct string, pos token.Pos, how string) {
+	rule = c.mapRule(rule)
 	c.add(Oblig{Rule: rule, Key: key(rule, construct), Pos: c.P.Pos(pos), How: how, OK: true, Trivial: true})
 }
 
@@ -88,6 +91,7 @@ func (c *Ctx) add(o Oblig) {
 
 // Fail records a violated obligation.  kind: refuted | unproven | unresolved.
 func (c *Ctx) Fail(rule, construct string, pos token.Pos, kind, msg string, path ...string) {
+	rule = c.mapRule(rule)
 	o := Oblig{Rule: rule, Key: key(rule, construct), Pos: c.P.Pos(pos), How: kind + ": " + msg, OK: false}
 	c.add(o)
 	k := c.Obligs[len(c.Obligs)-1].Key
@@ -112,13 +116,41 @@ func (c *Ctx) Unresolved(rule, what string) {
 
 // MinInstances fails when a rule matched fewer instances than confirmed by hand.
 func (c *Ctx) MinInstances(rule string, min int) {
+	rule = c.mapRule(rule)
 	if n := c.ruleCount[rule]; n < min {
 		c.Fail(rule, "min-instances", token.NoPos, "unresolved",
 			fmt.Sprintf("rule %s matched %d instances, expected at least %d (anchor drift: the rule would pass vacuously)", rule, n, min))
 	}
 }
 
-func (c *Ctx) Count(rule string) int { return c.ruleCount[rule] }
+func (c *Ctx) Count(rule string) int { return c.ruleCount[c.mapRule(rule)] }
+
+// mapRule renames rule ids while another property's check runs as part of a composition (RuleMap).
+func (c *Ctx) mapRule(rule string) string {
+	if c.RuleMap != nil {
+		return c.RuleMap(rule)
+	}
+	return rule
+}
+
+// Compose runs another property's whole check inside this one; its rule ids Cxx-... are reported as
+// <as>-... and the explanation of the running property is kept.
+func (c *Ctx) Compose(check func(*Ctx), from, as string) {
+	expl, nd, asm := c.Explanation, c.NotDecided, c.Assumptions
+	old := c.RuleMap
+	c.RuleMap = func(r string) string {
+		if strings.HasPrefix(r, from+"-") {
+			return as + "-" + r[len(from)+1:]
+		}
+		if old != nil {
+			return old(r)
+		}
+		return r
+	}
+	check(c)
+	c.RuleMap = old
+	c.Explanation, c.NotDecided, c.Assumptions = expl, nd, asm
+}
 
 // ---- known findings -------------------------------------------------------
 
